@@ -119,10 +119,89 @@ def cuboid_soft(package_dir):
     return s
 
 
+def water_motion(package_dir):
+    """Water molecules that switch between molecule motion and atom motion (the mode switching of dipole_motion.ini
+    applied to three-site molecules): bonds, bending and oxygen-oxygen Lennard-Jones in atom mode, Lennard-Jones
+    between whole molecules in molecule mode."""
+    w = scenario_module.load_ini(package_dir, "2018_JCP_149_064113/water/coulomb_power_bounded_lj_inverted.ini")
+    d = scenario_module.load_ini(package_dir, "2018_JCP_149_064113/dipoles/dipole_motion.ini")
+    s = {}
+    for name in ("Run", "HypercubicSetting", "SingleProcessMediator", "TreeStateHandler", "FactorTypeMaps",
+                 "HarmonicEventHandler", "HarmonicPotential", "BendingEventHandler", "BendingPotential",
+                 "LennardJonesPotential", "Sampling", "FixedIntervalSamplingEventHandler",
+                 "SingleIndependentActivePeriodicDirectionEndOfChainEventHandler", "FinalTimeEndOfRunEventHandler",
+                 "InitialChainStartOfRunEventHandler", "InputOutputHandler", "RandomInputHandler",
+                 "WaterRandomNodeCreator", "ElectricChargeValues", "OxygenIndicator",
+                 "OxygenOxygenSeparationOutputHandler"):
+        if name in w:
+            s[name] = dict(w[name])
+    leaf = "harmonic, bending, lennard_jones_leaf"
+    s["TagActivator"] = {"taggers": ",\n".join([
+        "harmonic (factor_type_map_in_state_tagger)", "bending (factor_type_map_in_state_tagger)",
+        "lennard_jones_leaf (factor_type_map_in_state_tagger)", "lennard_jones_root (factor_type_map_in_state_tagger)",
+        "sampling (no_in_state_tagger)", "leaf_to_root (active_root_unit_in_state_tagger)",
+        "root_to_leaf (active_root_unit_in_state_tagger)", "end_of_chain (active_global_state_in_state_tagger)",
+        "end_of_run (no_in_state_tagger)", "start_of_run (no_in_state_tagger)"])}
+    s["Harmonic"] = {"create": leaf, "trash": leaf, "event_handler": "harmonic_event_handler (two_leaf_unit_event_handler)",
+                     "number_event_handlers": "2", "factor_type_maps": "factor_type_maps"}
+    s["Bending"] = {"create": leaf, "trash": leaf, "number_event_handlers": "1", "factor_type_maps": "factor_type_maps",
+                    "event_handler": "bending_event_handler (fixed_separations_event_handler_with_piecewise_constant_"
+                                     "bounding_potential)"}
+    s["LennardJonesLeaf"] = {"create": leaf, "trash": leaf, "number_event_handlers": "1",
+                             "factor_type_maps": "factor_type_maps", "factor_type_maps_label": "lennard_jones",
+                             "event_handler": "lennard_jones_event_handler (two_leaf_unit_event_handler)"}
+    s["LennardJonesEventHandler"] = {"potential": "lennard_jones_potential"}
+    s["LennardJonesRoot"] = {"create": "lennard_jones_root", "trash": "lennard_jones_root",
+                             "number_event_handlers": "1", "factor_type_maps": "factor_type_maps",
+                             "factor_type_maps_label": "lennard_jones",
+                             "event_handler": "lennard_jones_molecule_mode_event_handler "
+                                              "(root_unit_active_two_leaf_unit_event_handler)"}
+    s["LennardJonesMoleculeModeEventHandler"] = {"potential": "lennard_jones_potential"}
+    s["RootToLeaf"] = {"create": leaf + ", leaf_to_root, end_of_chain",
+                       "trash": "lennard_jones_root, root_to_leaf, end_of_chain",
+                       "activate": leaf + ", leaf_to_root", "deactivate": "lennard_jones_root, root_to_leaf",
+                       "event_handler": "root_to_leaf_mode (root_leaf_unit_active_switcher)"}
+    s["RootToLeafMode"] = dict(d["RootToLeafMode"])
+    s["LeafToRoot"] = {"create": "lennard_jones_root, root_to_leaf, end_of_chain",
+                       "trash": leaf + ", leaf_to_root, end_of_chain",
+                       "activate": "lennard_jones_root, root_to_leaf", "deactivate": leaf + ", leaf_to_root",
+                       "event_handler": "leaf_to_root_mode (root_leaf_unit_active_switcher)"}
+    s["LeafToRootMode"] = dict(d["LeafToRootMode"])
+    s["EndOfChain"] = {"create": "end_of_chain, " + leaf + ", lennard_jones_root",
+                       "trash": "end_of_chain, " + leaf + ", lennard_jones_root",
+                       "event_handler": "single_independent_active_periodic_direction_end_of_chain_event_handler"}
+    s["EndOfRun"] = {"create": "end_of_run", "event_handler": "final_time_end_of_run_event_handler",
+                     "trash": leaf + ", lennard_jones_root, leaf_to_root, root_to_leaf, end_of_chain, sampling, "
+                              "end_of_run"}
+    s["StartOfRun"] = {"trash": "start_of_run",
+                       "create": leaf + ", sampling, leaf_to_root, end_of_run, end_of_chain",
+                       "activate": leaf + ", sampling, leaf_to_root, end_of_run, end_of_chain",
+                       "deactivate": "root_to_leaf, lennard_jones_root",
+                       "event_handler": "initial_chain_start_of_run_event_handler"}
+    s["FactorTypeMaps"] = {"filename": "@generated:[0, 1], Harmonic;[1, 2], Harmonic;[0, 1, 2], Bending;"
+                                       "[1, 4], LennardJones"}
+    s["FinalTimeEndOfRunEventHandler"]["end_of_run_time"] = "50"
+    return s
+
+
+def dip_atom_phase(package_dir):
+    """dipoles/atom_factors.ini with an additional timer event that switches the Coulomb factors off without touching
+    any motion (a legal wiring: every event that changes a motion trashes the pending Coulomb candidates)."""
+    s = scenario_module.load_ini(package_dir, "2018_JCP_149_064113/dipoles/atom_factors.ini")
+    s["TagActivator"]["taggers"] = s["TagActivator"]["taggers"].rstrip().rstrip(",") + \
+        ",\nphase_switch (no_in_state_tagger)"
+    s["PhaseSwitch"] = {"create": "phase_switch", "trash": "phase_switch", "deactivate": "coulomb",
+                        "event_handler": "phase_switch_event_handler (fixed_interval_sampling_event_handler)"}
+    s["PhaseSwitchEventHandler"] = {"sampling_interval": "2.0", "output_handler": "separation_output_handler"}
+    s["StartOfRun"]["create"] = s["StartOfRun"]["create"].rstrip().rstrip(",") + ", phase_switch"
+    s["EndOfRun"]["trash"] = s["EndOfRun"]["trash"].rstrip().rstrip(",") + ", phase_switch"
+    return s
+
+
 BUILDERS = {"soft_spheres": soft_spheres, "lj_atoms": lj_atoms, "hard_spheres": hard_spheres,
             "hard_disks": hard_disks, "hard_disk_dipoles": hard_disk_dipoles,
             "hard_disk_dipoles_cells": hard_disk_dipoles_cells, "cuboid_hard_cells": cuboid_hard_cells,
-            "cuboid_soft": cuboid_soft}
+            "cuboid_soft": cuboid_soft, "water_motion": water_motion, "dip_atom_phase": dip_atom_phase}
 
 
 def build(package_dir, name):
